@@ -1,12 +1,14 @@
 PROP = dict(
     gen=["tpdulayouts", "smsoctets"],
-    proof_files=["Properties/C19.v", "Proofs/TpduRoundtrip.v", "Proofs/TpduAlnum.v", "Proofs/SmsOctetTables.v", "Proofs/TpduFlags.v"],
-    model_files=["Model/SemiOctet.v", "Model/Tpdu.v", "Model/TpduRun.v", "Spec/Gsm0340.v"],
+    proof_files=["Properties/C19.v", "Proofs/TpduRoundtrip.v", "Proofs/TpduAlnum.v", "Proofs/SmsOctetTables.v", "Proofs/TpduFlags.v", "Proofs/TpduReader.v", "Proofs/TpduReaderCompose.v", "Proofs/TpduReaderSpec.v"],
+    model_files=["Model/SemiOctet.v", "Model/Tpdu.v", "Model/TpduRun.v", "Model/TpduReader.v", "Model/TpduReaderRun.v", "Spec/Gsm0340.v"],
     extra_files=["Proofs/TpduExt.v", "Properties/Ext_Sms.v"],   # the other TPDU types: outside C19, a failure is a note in the evidence, not a violation
     trusted=["Spec/Gsm0340.v: hand transcription of GSM 03.40 9.2.2.1/9.2.2.2/9.1.2.5/9.2.3.x and GSM 03.38 4, 6.1.2.1.1 (each definition cites its clause)",
              "harness/sms_spec.go: Go transliteration of the spec layout (compared with the Coq text in the kernel on every generated TPDU)",
              "Gen/TpduLayouts.v, Gen/SmsOctets.v: struct layouts by reflection and complete 256-row octet tables dumped from the running code (harness/gen_sms.go)"],
-    assumptions=["bufio.Reader over bytes.Reader, bytes.Buffer, reflect, time.Date/time.Time accessors, strconv.Itoa, x/text transform are Go library code (modelled, tied by the generated cases)"],
+    assumptions=["bufio.Reader over bytes.Reader, bytes.Buffer, reflect, time.Date/time.Time accessors, strconv.Itoa, x/text transform are Go library code (modelled, tied by the generated cases)",
+                 "the io.Reader handed to sms.Unmarshal delivers the octets in pieces of any positive sizes and then io.EOF (with the last piece or on the next call): "
+                 "C19_deliver_any_reader / C19_submit_any_reader / C19_*_roundtrip_any_reader state the property behind every such reader (decoder written over the bufio model, Model/TpduReader.v)"],
 )
 GEN = {"tpdulayouts": "Gen/TpduLayouts.v", "smsoctets": "Gen/SmsOctets.v"}
 ENGINE = {"name": "sms", "path": "coq/Model/SemiOctet.v coq/Model/Tpdu.v coq/Spec/Gsm0340.v harness/gen_sms.go harness/sms_common.go harness/sms_spec.go harness/c18.go harness/c19.go",
